@@ -100,3 +100,14 @@ package codegen
 //@   ensures [def] len(block) > 0 ==> (result <==> (is(block[len(block)-1].Kind, ir.StmtBreak) || is(block[len(block)-1].Kind, ir.StmtContinue) || is(block[len(block)-1].Kind, ir.StmtReturn) || is(block[len(block)-1].Kind, ir.StmtKill)))
 //@   pure
 //@   nopanic
+
+// ---- pointer parameters are passed by reference (C05) -----------------------------------------------
+//
+// A WGSL `ptr<space, T>` parameter (function or private space) lets the callee
+// write the caller's variable. GLSL has no pointers: the parameter is declared
+// `inout T`, for every address space a pointer parameter can have.
+//
+//@ func (*Writer).writeFunction
+//@   mode bv
+//@   tags C05
+//@   at (*Writer).getBaseTypeName assert [pointer-params-are-inout] int(arg.Type) < len(w.module.Types) && is(w.module.Types[int(arg.Type)].Inner, ir.PointerType) ==> qualifier == "inout " && arg1 == w.module.Types[int(arg.Type)].Inner.(ir.PointerType).Base
